@@ -15,7 +15,8 @@ claim('C06',
       'configurations x resume splits is run through the real TDS loop and compared with an independent fold of the '
       'schedule; plus every scripted convergence pattern with <=2 (3) deviations from "converged fast" at the step seam; '
       'plus time-series updates (1..2 TimeSeries devices, all row-time sets of size <=2 (3) from the lattice, equal and '
-      'unequal row counts, disabled devices, coincident Toggle, resume splits) against the data rows themselves. '
+      'unequal row counts, disabled devices, coincident Toggle, resume splits) against the data rows themselves; pairs also draw from four '
+      'Faults with shared start / clearing times, and a custom event (TDS.custom_event raised by a perturbation function) is placed at / next to / away from scheduled events. '
       'Exhaustive within those bounds, on the implementation itself.',
       'Trusts: the tiny systems are representative of the dispatch logic (which is system-independent); event times '
       'closer than 2*eps are outside the alphabet; observation wrappers on timer callbacks and callpert do not perturb the run.',
@@ -28,7 +29,8 @@ claim('C12',
       'with union-find components; every single-island-plus-isolated pattern goes through the real power flow and is '
       'compared with the reduced network; every bus subset (<=2 / <=3) is switched off through each public call and '
       'the set of devices that went off is compared with the attachment map; all pairs (triples) of line toggles in a '
-      'static simulation. A structured family reaches 6 (7) buses: every set partition of the buses realised as islands (path or star inside each block) x all slack patterns.',
+      'static simulation. A structured family reaches 6 (7) buses: every set partition of the buses realised as islands (path or star inside each block) x all slack patterns.'
+      ' Switchings of the events part are made by Toggle devices or by a perturbation function raising TDS.custom_event (alone and mixed); the run must succeed.',
       'Trusts the union-find reference and the hand-written attachment map of the 4-bus test system; Fortescue '
       'devices are not generated; switching a bus ON after setup is documented unsupported.',
       'exhaustive input-shape enumeration (all subgraphs x status patterns) against a union-find reference',
@@ -39,7 +41,8 @@ claim('C19',
       'numeric/string twins, auto-index look-alikes and NaN is executed on a real System; after each add and after '
       'setup the group/model registries and every lookup (idx2model, idx2uid, get, find_idx model/group, allow_none, '
       'allow_all, two-key) are compared with a dict-based registry; all assignments of <=3 referrers for the BackRef '
-      'users; each reference kind once dangling; all busf assignments for the DeviceFinder user. Group and model find_idx by bus are enumerated for all query tuples of length <= 3 over buses (1, 2, 3, missing) x allow_all x allow_none on three groups whose models share buses.',
+      'users; each reference kind once dangling; all busf assignments for the DeviceFinder user. Group and model find_idx by bus are enumerated for all query tuples of length <= 3 over buses (1, 2, 3, missing) x allow_all x allow_none on three groups whose models share buses.'
+      ' Optional links (bus -> area, machine -> COI) unset / set in every order over 3 devices, with Area and COI devices present.',
       'Trusts the dict reference; only StaticGen is used for add-histories (the registry code is group-independent); '
       'DeviceFinder is exercised through FLoad -> BusFreq.',
       'explicit-state exploration of add-histories and reference patterns against a dict-based registry model',
@@ -51,7 +54,8 @@ claim('C20',
       '(none, all sections, only used sections, other sections) plus malformed strings is executed and compared with a '
       'precedence dict; real System objects get every one of the ~400 fields through each channel in turn, with '
       'save -> load round trip of value and type, dict channel, run-time update; the step actually taken equals '
-      'TDS.tstep per channel. Histories also set every field by plain attribute assignment before save_config; three value sets per field including signed integers and negative floats; an integer given as text must be an integer in effect.',
+      'TDS.tstep per channel. Histories also set every field by plain attribute assignment before save_config; three value sets per field including signed integers and negative floats; an integer given as text must be an integer in effect.'
+      ' Histories of two Systems in one process over one unchanged rc file ({file, options, dict} then {file, options}); a rejected Config.update must not stay in effect.',
       'Trusts the reference coercion rule (int, else float, else text); numba/dime/seed fields excluded from all-field '
       'runs; dict-vs-option conflicts unspecified and not explored.',
       'exhaustive channel/value-class enumeration at the configuration seam against a precedence-dict reference',
@@ -64,7 +68,8 @@ claim('C09',
       'DeadBandRT: every below/inside/above history to depth 5 (7); Delay(step/time)/Average/Derivative/Sampling: every '
       'time-move history (repeat, +h, +2h, +h/2, rewind into the last step) of depth 5 (6) x every 3-level input '
       'history, against ten-line reference definitions; plus every stored instant of every anti-windup state in 8 '
-      'simulations with binding limiters.',
+      'simulations with binding limiters.'
+      ' Part awmove: a limit moved between consecutive check_eq calls while the pegged set is unchanged; flags, state, derivative and x_set write-back values against the limits in force.',
       'Trusts vmc/refs/discrete.py (transcribed from the class docstrings); rewinds restricted to what a rejected step '
       'produces; Selector ties and Sampling after rewinds judged only weakly.',
       'explicit-state exploration of input/time histories of the real component classes against reference semantics',
@@ -92,7 +97,8 @@ claim('C08',
       'decomposition; the same oracle (reference: the harness\'s own Schur reduction, plus a structural mode-count '
       'clause) on 7 stock dynamic cases through EIG.run, on every subset of <=1 (2) exciter lead-lag constants set to '
       'zero, and on ONE kundur_full System re-analysed after every operation of all sequences of depth <= 3 (4) that move '
-      'time constants between zero and non-zero.',
+      'time constants between zero and non-zero.'
+      ' Part oppoint: EIG.run after TDS.run(tf) [-> TDS.run(tf + 1)] with a line trip, lazy and honest Jacobian updates, both methods, against the pencil of Jacobians refreshed by the harness at the point reached.',
       'Trusts scipy.linalg.eig / numpy eigvals; synthetic patterns whose algebraic block has condition number > 1e3 are '
       'excluded at enumeration; stock cases are judged unless one of the two eliminations is numerically singular '
       '(ieee39_full); repeated eigenvalues are not judged for the most-associated state.',
@@ -106,7 +112,8 @@ claim('C16',
       'dense residual (A x = b to 1e-9, singular input never yields a finite x); native crashes and hangs are caught by '
       'the runner. Routine level: three systems x back-end x linsolve x ipadd (x Newton variant): power-flow solution, '
       'stored trajectory and eigenvalues equal the default configuration; bit-identical repetition in fresh processes '
-      'via sha1 digests of the raw results. The routine product includes ieee14 with an islanded load bus (island post-processing of residuals and matrices in both accumulation modes); every linsolve with a column right-hand side must leave the solution in that right-hand side.',
+      'via sha1 digests of the raw results. The routine product includes ieee14 with an islanded load bus (island post-processing of residuals and matrices in both accumulation modes); every linsolve with a column right-hand side must leave the solution in that right-hand side.'
+      ' The matrix alphabet includes another pattern with the shape and number of stored entries of the first.',
       'SciPy solve() without a pending refresh is documented to reuse its factorisation and is not judged; numba only in '
       'thorough; matrices are 3x3/4x4 (the wrapper logic is size-independent).',
       'explicit-state exploration of solver-call sequences + full configuration product against the default run',
@@ -126,7 +133,8 @@ claim('C17',
       'method): the stability criterion recomputed from the stored angles must stop the run. Histories: one System through '
       'all sequences of depth <= 3 (4) over solvable / unsolvable states, power flow after each, TDS and EIG on the last. Files: every token-boundary '
       'prefix of a json case, 8 truncations of an xlsx case, empty, wrong extension, missing - through andes.load and '
-      'the CLI entry point.',
+      'the CLI entry point.'
+      ' Files part: an intact and a missing file on one command line; tds part: failing initialisations requested through PFlow.init_tds = 1.',
       'Rejecting bad data while loading (exception or None) counts as reported failure; a routine run() that raises '
       'instead of returning its flag is a violation. Inputs the models document a default / regularisation for may '
       'succeed if the result is truthful. The reference power balance applies the documented conversion of PQ loads to impedances outside their voltage band.',
@@ -140,7 +148,8 @@ claim('C18',
       'variants) are instantiated with named parameters and define()d; on the full tensor grid of 4 (5) generic values per '
       'parameter in the regular region and in every documented bypass region, the exported equation strings are linearised '
       '(affinity checked), internal variables eliminated with T on the left, and G_impl(s) compared with the documented '
-      'G(s) at 7 complex frequencies; declared initial values must balance every equation for constant input.',
+      'G(s) at 7 complex frequencies; declared initial values must balance every equation for constant input.'
+      ' The PI-family blocks are built with a reference input: dependence on (u, ref) only through u - ref, and u = ref is a steady state of the declared initial values.',
       'vmc/refs/blocks_doc.py (hand transcription of the documented transfer functions) is trusted; grid agreement decides '
       'polynomial identity only up to the stated degree bound; limits are placed far outside the operating range.',
       'exhaustive tensor-grid enumeration per block and region against the documented transfer function',
@@ -153,7 +162,8 @@ claim('C01',
       'cross dimensions one at a time (reversed order, string indices, re-based data, json round trip, dishonest / '
       'Newton-Krylov, umfpack / spsolve, linsolve, ipadd=0). Each execution: real PFlow.run from a flat start; complex power '
       'balance recomputed from the INPUT data by an independent pi-model with textbook base conversion, set-points, and '
-      'agreement with an independent Newton solution and with the default variant.',
+      'agreement with an independent Newton solution and with the default variant.'
+      ' Wave 4: a bus device set with an out-of-service bus (to-end of two branches, from-end of two more, two loads, a generator, a shunt) whose attachments the reference drops.',
       'Trusts vmc/refs/acflow.py; networks up to 4 buses; PQ voltage limits set wide; Vn2 != bus kV excluded; xlsx / '
       'MATPOWER / PSS/E input channels are covered under C13.',
       'bounded exhaustive enumeration of network shapes with deviation bounding against an independent AC reference',
@@ -181,7 +191,8 @@ claim('C03',
       'triplet list must have zero derivative. Assembled level: 10 stock systems x status patterns (each of the first '
       'lines / loads / generators off, leaf-bus isolation, pairs in thorough) x ipadd x both addressing phases x 5 operating '
       'points: dae.fx/fy/gx/gy entry-wise against finite differences of the assembled residual, non-zeros inside the stored '
-      'pattern, pattern stable across updates, in-place = rebuilt accumulation. On the all-on systems the comparison is repeated after every continuous parameter read by a Jacobian function has been changed in place and the first device of every dynamic model switched off; islanded-bus rows take part in the comparison of the two accumulation modes.',
+      'pattern, pattern stable across updates, in-place = rebuilt accumulation. On the all-on systems the comparison is repeated after every continuous parameter read by a Jacobian function has been changed in place and the first device of every dynamic model switched off; islanded-bus rows take part in the comparison of the two accumulation modes.'
+      ' Part newton: every matrix handed to Solver.solve / linsolve by the power-flow and time-domain routines (full product method x g_scale x honest x linsolve x tstep x fixt, two systems with a line trip) equals the derivative of the residual vector handed over with it.',
       'Rows of models with VarService / numeric hooks, anti-windup-pegged states and neutralised isolated-bus rows are not '
       'closed-form and are skipped; limiter kinks accept either one-sided derivative.',
       'exhaustive enumeration of models x Jacobian entries x lattice, and systems x status x operating points, against '
@@ -215,7 +226,8 @@ claim('C13',
       'bases, magnetising admittance) must give the power-flow voltages of its star equivalent solved by the independent '
       'network model. Generated dyr text (13 record types x 3 placement plans on three generators, two of them on one bus x 3 '
       'record orders x 2 layouts): every field against the PSS/E documentation order, attachment by (IBUS, ID), M = 2H, '
-      'Sn = MBASE.',
+      'Sn = MBASE.'
+      ' MATPOWER generator status codes 2 / -1 / 0 and the closing bracket on the line of the last row; three-winding status codes 0 / 2 / 3 / 4.',
       'The RAW / MATPOWER / dyr generators and the PSS/E field tables in the check are the independent reading; dyr models '
       'outside the 13 tabulated ones only through stock cases; numeric-looking string indices excluded from the xlsx leg.',
       'exhaustive enumeration of stock files and of a generated case family x formats against independent writers/readers',
@@ -230,7 +242,8 @@ claim('C04',
       're-evaluated at the accepted point and a bound built from the iteration matrix and last increment the run itself used; '
       'every rejected step must leave x, y, f bit-identical; step size, end time, monotone time and "time advances by the h '
       'used in the rule" are checked at every call. Every configuration is also interrupted at 0.2 s and resumed (with and '
-      'without a forced rejection after the resume); the sample stored before the interruption must be unchanged.',
+      'without a forced rejection after the resume); the sample stored before the interruption must be unchanged.'
+      ' Schedules that alter a time constant during the run (Alter devices, Model.alter between resumed segments); the rule is judged with the time constants of the model parameters, which must equal dae.Tf.',
       'Bound 2|Ac|(|inc| + tol 1e-6) (convergence is declared on the increment); f0 is the value the integrator used; steps at '
       'which the re-evaluation pegs a limiter are not judged; order of convergence is decided under C07.',
       'deviation-bounded exploration of forced step rejections on the real integrator with a per-step residual oracle',
@@ -245,7 +258,8 @@ claim('C05',
       'the ~55 generically attachable dynamic models (all exciters, governors, stabilisers, compensator, renewable generator '
       'and controller chain, distributed generators, dynamic loads, motors, measurement devices; exciter x governor pairs in '
       'thorough), on kundur_full with each dynamic device offline, on a static generator split between two machines, and on '
-      'two systems with all 25 combinations of the static-load conversion weights for P and Q. A further part attaches every model with each option of each of its Switcher (mode / flag) parameters, IEEEST with every MODE x remote bus and ST2CUT with every MODE x MODE2 x local / remote signal buses.',
+      'two systems with all 25 combinations of the static-load conversion weights for P and Q. A further part attaches every model with each option of each of its Switcher (mode / flag) parameters, IEEEST with every MODE x remote bus and ST2CUT with every MODE x MODE2 x local / remote signal buses.'
+      ' Every attachable model is attached once in service and once out of service (u = 0).',
       'Precondition decided by the harness from live limiter flags; attach uses default parameters; models needing '
       'companion files only through stock cases.',
       'exhaustive enumeration of stock cases and attachable models with a residual-recomputation oracle',
@@ -286,7 +300,8 @@ claim('C07',
       'the method\'s order on two successive halvings and stay below a bound built from the reference\'s own derivatives at '
       'the default step and tolerance. Small-signal benchmark: every state direction (every 3rd in quick) of SMIB, '
       'kundur_full and ieee14_full perturbed by 1e-4 for both methods against expm(As t) dx0 with As assembled by the '
-      'harness from the Jacobians at the operating point.',
+      'harness from the Jacobians at the operating point.'
+      ' Sixth axis: machine rating 100 / 250 MVA (the same physical machine entered on its own base).',
       'Lattice of parameter values only; order visible only below the Newton tolerance (order runs use tol 1e-9) and above '
       'the 2e-5 rad floor the eps-steps around events leave; A2 shares the Jacobians with the simulator (C03 decides those).',
       'full lattice enumeration of benchmark parameters and perturbation directions against independent reference solutions',
